@@ -603,11 +603,23 @@ func (ms *Modules) include(m *Module) error {
 	}
 	ms.includes[m] = true
 
+	// A link that cannot be made does not stop the linking of the others:
+	// what the statements after it name is loaded and linked all the same
+	// (by this run, not only when something later happens to ask for it).
+	// The first error is the one reported.
+	var first error
+	note := func(err error) {
+		if first == nil {
+			first = err
+		}
+	}
+
 	// First process any includes in this module.
 	for _, i := range m.Include {
 		im := ms.FindModule(i)
 		if im == nil {
-			return fmt.Errorf("no such submodule: %s", i.Name)
+			note(fmt.Errorf("no such submodule: %s", i.Name))
+			continue
 		}
 		// A submodule can only be included by the module it belongs to and
 		// by that module's other submodules.
@@ -616,11 +628,13 @@ func (ms *Modules) include(m *Module) error {
 			owner = m.BelongsTo.Name
 		}
 		if im.BelongsTo != nil && im.BelongsTo.Name != owner {
-			return fmt.Errorf("%s: submodule %s belongs to %s, not to %s", Source(i), im.Name, im.BelongsTo.Name, owner)
+			note(fmt.Errorf("%s: submodule %s belongs to %s, not to %s", Source(i), im.Name, im.BelongsTo.Name, owner))
+			continue
 		}
 		// Process the include statements in our included module.
 		if err := ms.include(im); err != nil {
-			return err
+			note(err)
+			continue
 		}
 		i.Module = im
 	}
@@ -630,16 +644,18 @@ func (ms *Modules) include(m *Module) error {
 	for _, i := range m.Import {
 		im := ms.FindModule(i)
 		if im == nil {
-			return fmt.Errorf("no such module: %s", i.Name)
+			note(fmt.Errorf("no such module: %s", i.Name))
+			continue
 		}
 		// Process the include statements in our included module.
 		if err := ms.include(im); err != nil {
-			return err
+			note(err)
+			continue
 		}
 
 		i.Module = im
 	}
-	return nil
+	return first
 }
 
 func (ms *Modules) getEntryCache(n Node) *Entry {
